@@ -47,6 +47,11 @@ pub fn cli_main() {
         std::process::exit(2);
     }
     let id = args[1].clone();
+    if id == "DEV-ERRORS" {
+        install_panic_hook();
+        devtools::show_errors(&args[2]);
+        return;
+    }
     if id == "DEV-TREES" {
         install_panic_hook();
         devtools::show_trees(&args[2], args[3].parse().unwrap(), args[4].parse().unwrap(), &args[5]);
